@@ -125,6 +125,17 @@ def run_laws(case, drv) -> Outcome:
         got = torch.stack([torch.as_tensor(ps.z), torch.as_tensor(ps.y), torch.as_tensor(ps.x)], -1).to(torch.float64)
         if not close(got, p(vec), 1e-6):
             viol = viol or v('spatialdimension', 'applying to a SpatialDimension differs from applying to the (z, y, x) vector')
+    # as_directions: the columns of the matrix as (z, y, x) SpatialDimensions; from_directions rebuilds the same (also improper) rotation
+    st, dirs = call(lambda: p.as_directions())
+    if st == 'ok':
+        colsd = [torch.stack([torch.as_tensor(d.z), torch.as_tensor(d.y), torch.as_tensor(d.x)], -1).to(torch.float64) for d in dirs]
+        if any(not close(colsd[j], mp[..., :, j], 1e-6) for j in range(3)):
+            viol = viol or v('as_directions', 'as_directions() are not the columns of as_matrix()')
+        st2, back = call(lambda: Rotation.from_directions(*dirs))
+        if st2 != 'ok' or not close(mats(back), mp, 1e-5):
+            viol = viol or v('from_directions', 'from_directions(*as_directions()) is not the same rotation')
+    else:
+        viol = viol or v('as_directions-raises', f'as_directions raises {dirs}')
     # indexing / concatenate / reshape for batched p
     if case['shapes'][0]:
         idx = tuple(rng.randrange(s) for s in case['shapes'][0])
